@@ -44,6 +44,15 @@ def eq_sides(f, v, refuse_when_equal=False):
             fails = [e2 for (e2, f2) in v.facts if e2[0] == e[0] and f2[0] == "cond" and f2[4] == refuse_when_equal]
             if fails and all(fail_is_error(f, e2) for e2 in fails):
                 return fa[2], fa[3]
+    # no branch: the Result is returned as a value that is Ok exactly when the equality has the accepting truth value
+    from ..guards import ok_facts_of_value
+    vals = [(b, k, rv) for (b, k, rv) in ret_writes(f) if k in ("call", "other", "ok")]
+    if len(vals) == 1 and vals[0][1] in ("call", "other"):
+        b, k, rv = vals[0]
+        T = v.cx.call(rv, v.cx.site(b)) if k == "call" else v.cx.rvalue(rv, (f.key, b, 0))
+        for fa in (ok_facts_of_value(T) if T is not None else ()):
+            if fa[0] == "cond" and fa[1] == "eq" and fa[3] is not None and fa[4] == (not refuse_when_equal):
+                return fa[2], fa[3]
     return None
 
 
